@@ -134,7 +134,10 @@ class MAUPITIConv2d(nn.Conv2d, MAUPITIModule):
         if self.padding == 'valid':
             self.pad = nn.ConstantPad2d(0, 0)
         else:
-            self.pad = nn.ConstantPad2d(self.padding[0], self.clip_inf)
+            # (left, right, top, bottom): last axis first
+            self.pad = nn.ConstantPad2d((self.padding[1], self.padding[1],
+                                         self.padding[0], self.padding[0]),
+                                        self.clip_inf)
 
     def forward(self, input: torch.Tensor) -> torch.Tensor:
         """The forward function of integer conv2d layer.
